@@ -28,7 +28,7 @@ const (
 // kept line with "\n".  The two points the statement leaves open are
 // parameters: whether a lone CR ends a line (splitCR), and whether only blanks,
 // tabs and CR (narrow) or every Unicode white space (wide) is trimmed.
-func c15Normalise(text []byte, splitCR, wide bool) (out []byte, count int) {
+func c15Normalise(text []byte, splitCR, wide, dropHdr bool) (out []byte, count int) {
 	out = []byte{}
 	start := 0
 	emit := func(line []byte) {
@@ -38,6 +38,10 @@ func c15Normalise(text []byte, splitCR, wide bool) (out []byte, count int) {
 			line = bytes.Trim(line, " \t\r")
 		}
 		if len(line) == 0 || line[0] == '#' || line[0] == '!' {
+			return
+		}
+		if dropHdr && len(line) >= 2 && line[0] == '[' && line[len(line)-1] == ']' {
+			// "[Adblock Plus 2.0]"-style header: neither comment nor rule.
 			return
 		}
 		out = append(out, line...)
@@ -58,7 +62,7 @@ func c15Normalise(text []byte, splitCR, wide bool) (out []byte, count int) {
 // c15Forms returns the distinct acceptable normal forms of text (the first is
 // the plain reading) and the unspecified zones that make them differ.
 func c15Forms(text []byte) (forms [][]byte, zones []string) {
-	base, _ := c15Normalise(text, false, false)
+	base, _ := c15Normalise(text, false, false, false)
 	forms = append(forms, base)
 	add := func(f []byte, zone string) {
 		for _, g := range forms {
@@ -67,14 +71,28 @@ func c15Forms(text []byte) (forms [][]byte, zones []string) {
 			}
 		}
 		forms = append(forms, f)
+		for _, z := range zones {
+			if z == zone {
+				return
+			}
+		}
 		zones = append(zones, zone)
 	}
-	f, _ := c15Normalise(text, false, true)
-	add(f, "exotic-white-space-at-line-edge")
-	f, _ = c15Normalise(text, true, false)
-	add(f, "lone-CR-inside-line")
-	f, _ = c15Normalise(text, true, true)
-	add(f, "lone-CR-inside-line+exotic-white-space")
+	for k := 1; k < 8; k++ {
+		splitCR, wide, dropHdr := k&1 != 0, k&2 != 0, k&4 != 0
+		f, _ := c15Normalise(text, splitCR, wide, dropHdr)
+		var zs []string
+		if splitCR {
+			zs = append(zs, "lone-CR-inside-line")
+		}
+		if wide {
+			zs = append(zs, "exotic-white-space-at-line-edge")
+		}
+		if dropHdr {
+			zs = append(zs, "bracket-header-line")
+		}
+		add(f, strings.Join(zs, "+"))
+	}
 
 	return forms, zones
 }
@@ -191,6 +209,75 @@ func c15CommentLine(rng *rand.Rand) string {
 	}
 }
 
+// c15Special are line kinds whose classification could depend on the state of
+// the parser (title seen or not, something written or not) or on their first
+// character.  All rule-looking ones are tied to names containing "example".
+var c15Special = []string{
+	"[Adblock Plus 2.0]", "[AdGuard]", "[Adblock Plus 3.1]", "[]", "[ uBlock Origin ]",
+	"[$path=/page]example.org##.banner", "[::1] ads.example.net", "[$app=org.example]||y.example.org^", "[unclosed.example header",
+	"! Title: second title", "! Title:", "!Title: glued", "! title: lower case", "Title: bare.example.org",
+	"! Homepage: https://example.org/", "! Version: 1.2.3", "! Expires: 1 day", "! Checksum: abcDEF123", "! Last modified: 2024-01-01",
+	"!#if (adguard)", "!#include more.example.txt", "!+ NOT_OPTIMIZED", "!#endif",
+	"# Title: hash title", "##.banner", "#@#.sponsored", "#%#//scriptlet('x.example')", "#$#body { x: example }", "#?#div:has(> .example)",
+	"<div class=\"example\">", "<!-- example comment -->", "<?xml version=\"1.0\" example?>", "</html>", "<head><title>example</title></head>",
+	"example.org##.ad", "example.org#@#.ad", "||x.example.org^$third-party", "@@||ok.example.org^", "$$script[tag-content=\"example\"]",
+}
+
+// c15SpecialLine returns one of c15Special or a line "<punctuation>sweep.example.org".
+func c15SpecialLine(rng *rand.Rand) string {
+	if rng.Intn(4) == 0 {
+		const punct = "\"%&'()+,-.:;<=>?@[\\]_`{|}~"
+		return string(punct[rng.Intn(len(punct))]) + "sweep.example.org"
+	}
+
+	return c15Special[rng.Intn(len(c15Special))]
+}
+
+// c15Stateful lays special lines around an optional title line: before it,
+// right behind it, far behind it (after filler), behind a second title, or in
+// a text without any title.  filler returns an ordinary line.
+func c15Stateful(rng *rand.Rand, filler func() string) (lines []string) {
+	some := func(max int) {
+		for k := rng.Intn(max + 1); k > 0; k-- {
+			lines = append(lines, c15SpecialLine(rng))
+		}
+	}
+	titles := []string{"! Title: main list", "! Title: x", "!  Title: not a title", "! Title: main list  "}
+	switch rng.Intn(5) {
+	case 0:
+		// No title at all.
+		some(3)
+		for k := rng.Intn(12); k > 0; k-- {
+			lines = append(lines, filler())
+		}
+		some(3)
+
+		return lines
+	case 1:
+		// Title on the very first line.
+	case 2:
+		// Title behind rules.
+		for k := 1 + rng.Intn(4); k > 0; k-- {
+			lines = append(lines, filler())
+		}
+		some(2)
+	default:
+		some(3)
+	}
+	lines = append(lines, titles[rng.Intn(len(titles))])
+	some(3)
+	for k := rng.Intn(25); k > 0; k-- {
+		lines = append(lines, filler())
+	}
+	some(3)
+	if rng.Intn(4) == 0 {
+		lines = append(lines, "! Title: another title")
+		some(2)
+	}
+
+	return lines
+}
+
 var c15ASCIIPad = []string{" ", "\t", "  ", " \t ", "\t\t", "    "}
 var c15ExoticPad = []string{"\u00a0", "\u2003", "\u3000", "\u0085", "\v", "\f", "\u2028", "\u200a "}
 
@@ -279,6 +366,13 @@ func c15GenText(rng *rand.Rand, probe, class string, minLines int) *c15Text {
 		n = 1
 	}
 	lines := make([]string, 0, n+3)
+	if rng.Intn(2) == 0 {
+		// Special lines laid around a title (or in a text without one).
+		for _, l := range c15Stateful(rng, func() string { return c15RuleLine(rng) }) {
+			lines = append(lines, c15Pad(rng, l))
+		}
+		n = minLines
+	}
 	for i := 0; i < n; i++ {
 		switch k := rng.Intn(20); {
 		case k < 10:
